@@ -1,7 +1,9 @@
 /* hwv_xmlload: recorder for C06 (loading arbitrary XML).  No oracle logic.
  * behaviour file:
  *   reset
- *   xmlload <path> <buffer|file> <topology flags> <keepall 0|1> <pristine 0|1> <after 0=destroy|1=reconfigure+reload>
+ *   xmlload <path> <buffer|file> <topology flags> <keepall 0|1> <pristine 0|1> <after 0=destroy|1=reconfigure+reload|2=reload a good XML> [<good XML path>]
+ *     after = 2: when the load fails, the same topology is given <good XML path>, configured as before and loaded; a fresh topology
+ *     does the same; both projections (with stores) are logged as "re_topo" / "fresh_topo"
  *   diffload <path> <buffer|file> <pristine 0|1>
  * On a successful load the read-only battery runs (projection with hwloc_topology_check in a forked child, store queries,
  * type/attr printing at three sizes for every object, XML v3/v2 and synthetic export, dup, destroy); "battery":1 is logged
@@ -42,6 +44,7 @@ static void print_all(hwloc_topology_t t) {
 static void do_xmlload(char *p) {
   char *path = hwv_tok(&p), *mode = hwv_tok(&p); unsigned long fl = (unsigned long)hwv_tokl(&p);
   int keepall = (int)hwv_tokl(&p), pristine = (int)hwv_tokl(&p), after = (int)hwv_tokl(&p);
+  char *good = hwv_tok(&p); int two = 0;
   hwloc_topology_t t = NULL; int r1 = -1, r2 = -2, err = 0, battery = 0, re_set = -2, re_load = -2, re_n = 0; char *buf = NULL; long len = 0;
   hwloc_topology_init(&t);
   errno = 0;
@@ -70,14 +73,36 @@ static void do_xmlload(char *p) {
     battery = 1;
   } else {
     out("{\"n\":0}");
-    if (after) {
+    if (after == 2 && good) {
+      /* a failed load leaves a topology that may be given another source and loaded: it must then be what a fresh topology gets */
+      hwloc_topology_t f = NULL; int fs, fl2 = -1;
+      re_set = hwloc_topology_set_xml(t, good);
+      if (!re_set) {
+        hwloc_topology_set_flags(t, fl);
+        if (keepall) hwloc_topology_set_all_types_filter(t, HWLOC_TYPE_FILTER_KEEP_ALL);
+        re_load = hwloc_topology_load(t);
+      }
+      hwloc_topology_init(&f);
+      fs = hwloc_topology_set_xml(f, good);
+      if (!fs) {
+        hwloc_topology_set_flags(f, fl);
+        if (keepall) hwloc_topology_set_all_types_filter(f, HWLOC_TYPE_FILTER_KEEP_ALL);
+        fl2 = hwloc_topology_load(f);
+      }
+      out(",\"fresh_set\":%d,\"fresh_load\":%d,\"re_topo\":", fs, fl2);
+      if (!re_set && !re_load) { project_topology(t, 1); hwv_len--; out(",\"stores\":"); project_stores(t); out("}"); } else out("{\"n\":0}");
+      out(",\"fresh_topo\":");
+      if (!fs && !fl2) { project_topology(f, 1); hwv_len--; out(",\"stores\":"); project_stores(f); out("}"); } else out("{\"n\":0}");
+      hwloc_topology_destroy(f);
+      two = 1;
+    } else if (after) {
       /* a failed load leaves a topology that may be configured and loaded again */
       re_set = hwloc_topology_set_synthetic(t, "pu:2");
       if (!re_set) { re_load = hwloc_topology_load(t); if (!re_load) re_n = (int)hwloc_get_nbobjs_by_type(t, HWLOC_OBJ_PU); }
     }
     hwloc_topology_destroy(t); t = NULL;
   }
-  out(",\"battery\":%d,\"re_set\":%d,\"re_load\":%d,\"re_n\":%d}", battery, re_set, re_load, re_n); out_end();
+  out(",\"battery\":%d,\"re_set\":%d,\"re_load\":%d,\"re_n\":%d,\"two\":%d}", battery, re_set, re_load, re_n, two); out_end();
 }
 
 static void do_diffload(char *p) {
